@@ -54,7 +54,7 @@ theorem gap_kid_finish {f : Forest} {a q : Nat} {vq : Value} {l0 : List HTree} {
   have hpot : po ∉ handles t := by
     intro hin
     apply hpoL
-    rw [handlesList_append, handlesList_cons]
+    rw [fs_handlesList_append, handlesList_cons]
     exact List.mem_append_right _ (List.mem_append_left _ hin)
   have hfix : ∀ g, HTree.editAt po g t = t := fun g => editAt_of_not_mem t hpot
   have hnG : ∀ ψ, KidMap ψ → NatFor ψ (dropTop t.handle ∘ G) :=
@@ -313,7 +313,7 @@ theorem replace_gap_nontext_other {f : Forest} {a b q : Nat} {vq : Value} {l0 : 
       simp
     · simp only [List.map_append, List.map_cons, List.map_nil]
       exact k1
-    · simp only [List.map_append, List.map_cons, List.map_nil, handlesList_append, handlesList_cons,
+    · simp only [List.map_append, List.map_cons, List.map_nil, fs_handlesList_append, handlesList_cons,
         handlesList_nil, setValue_handles, List.append_nil, List.append_assoc]
       exact (List.Sublist.refl _).append ((List.Sublist.refl _).append ((List.Sublist.refl _).append
         (List.sublist_append_right _ _)))
